@@ -720,9 +720,12 @@ def r01_6(ctx):
 
 def r01_7(ctx):
     """R01.7 every `depends on` line counts: both parsers AND repeated depends-on / visible-if lines onto the node's
-    dependency (C04 R04.8) - a dropped line removes an inherited condition from prompts, defaults, ranges and selects."""
+    dependency (C04 R04.8) - a dropped line removes an inherited condition from prompts, defaults, ranges and selects; every operand of a
+    condition reaches the expression tree (C04 R04.14)."""
     from . import c04
     c04.r04_8(ctx)
+    # ... and every operand of a condition counts: parser 2 uses every element of the operand list (C04 R04.14)
+    c04.r04_14(ctx)
 
 
 def r01_8(ctx):
@@ -795,6 +798,17 @@ def r01_11(ctx):
     (ctx.bad(construct, f"`{ast.unparse(folded[0])}` folds the case: a default that names a real option called YES / TRUE / NO ... is rewritten to n",
              f.loc(folded[0])) if folded else ctx.ok(construct, f.loc(tests[0])))
 
+def r01_12(ctx):
+    """R01.12 the first default / range whose condition holds is the one that counts: in the search loops of Symbol.str_value,
+    Symbol.bool_value, Symbol._str_default and Choice._selection_from_defaults the arm taken for an active entry always leaves
+    the loop - a `break` that depends on the entry's value (`if val: break`) lets a later default overrule the first active one."""
+    from .common import first_match_loops
+    n = first_match_loops(ctx, [f"{CORE}:Symbol.str_value", f"{CORE}:Symbol.bool_value", f"{CORE}:Symbol._str_default", f"{CORE}:Choice._selection_from_defaults"],
+                          "a later entry decides although an earlier one is active")
+    if n < 8:
+        raise AnalysisError(f"only {n} first-match loops found in the evaluators")
+
+
 def rules():
-    return [("R01.11", r01_11, 1), ("R01.10", r01_10, 2), ("R01.9", r01_9, 10), ("R01.1", r01_1, 9), ("R01.2", r01_2, 5), ("R01.3", r01_3, 5), ("R01.4", r01_4, 12), ("R01.5", r01_5, 7),
+    return [("R01.12", r01_12, 8), ("R01.11", r01_11, 1), ("R01.10", r01_10, 2), ("R01.9", r01_9, 10), ("R01.1", r01_1, 9), ("R01.2", r01_2, 5), ("R01.3", r01_3, 5), ("R01.4", r01_4, 12), ("R01.5", r01_5, 7),
             ("R01.6", r01_6, 5), ("R01.7", r01_7, 4), ("R01.8", r01_8, 14)]
